@@ -70,6 +70,10 @@ fn report(run: &Run, p: Prof, s: &str) {
     sc.frozen = true;
     if let Err(v) = check(p, &t, &mut sc) {
         run.violate(v);
+    } else if let Err(v) = check(p, s, &mut Local::scratch()) {
+        // the shrunk copy (a freshly allocated String) passes: the failure depends on the argument as it was handed over (e.g. the
+        // address of a &str view); reported as found
+        run.violate(v);
     }
 }
 
@@ -170,6 +174,12 @@ pub fn run(run: &Run) {
             false
         }
     }));
+    super::pipe::pointer_offset_sweep(run, &["A", "Z", "\u{c9}", "\u{3a3}", "\u{130}", "\u{212a}", "\u{10400}", "\u{1c5}", "aB", "\u{e9}X"], &|s, l| {
+        for p in profs {
+            check(p, s, l)?;
+        }
+        Ok(())
+    });
     super::pipe::stress(run, "alignment_and_runs", &super::pipe::PAYLOADS_USER, &|s, l| {
         for p in profs {
             if check(p, s, l).is_err() {
